@@ -20,10 +20,12 @@ def _(b, k):
     return Call(tl().unfold, b.arr(SHAPE, k), 1)
 
 
-@entry("base.fold", ARR + ("invalid",), ALLDT)
+@entry("base.fold", ARR + ("shape_list", "invalid"), ALLDT)
 def _(b, k):
     if k == "invalid":
         return Call(tl().fold, b.arr((4, 6)), 1, (3, 4, 3)).raises()
+    if k == "shape_list":       # fold re-orders a copy of the shape: the caller's list must stay as it is
+        return Call(tl().fold, b.arr((4, 6)), 1, list(SHAPE))
     return Call(tl().fold, b.arr((4, 6), k), 1, SHAPE)
 
 
@@ -34,7 +36,7 @@ def _(b, k):
 
 @entry("base.vec_to_tensor", ("fresh", "sview"), ALLDT)
 def _(b, k):
-    return Call(tl().vec_to_tensor, b.arr((24,), k), SHAPE)
+    return Call(tl().vec_to_tensor, b.arr((24,), k), list(SHAPE) if k == "sview" else SHAPE)
 
 
 @entry("base.partial_unfold", ARR, ALLDT)
@@ -44,7 +46,7 @@ def _(b, k):
 
 @entry("base.partial_fold", ARR, ALLDT)
 def _(b, k):
-    return Call(tl().partial_fold, b.arr((2, 4, 6), k), 1, (2,) + SHAPE, skip_begin=1)
+    return Call(tl().partial_fold, b.arr((2, 4, 6), k), 1, [2] + list(SHAPE) if k == "sview" else (2,) + SHAPE, skip_begin=1)
 
 
 @entry("base.partial_tensor_to_vec", ARR, ALLDT)
@@ -57,11 +59,15 @@ def _(b, k):
     return Call(tl().partial_vec_to_tensor, b.arr((2, 24), k), (2,) + SHAPE, skip_begin=1)
 
 
-@entry("base.matricize", ARR + ("invalid",), ALLDT)
+@entry("base.matricize", ARR + ("rows_only", "tuples", "invalid"), ALLDT)
 def _(b, k):
     from tensorly.base import matricize
     if k == "invalid":
         return Call(matricize, b.arr(SHAPE), [0, 7], [1]).raises()
+    if k == "rows_only":
+        return Call(matricize, b.arr(SHAPE), [2, 0])
+    if k == "tuples":
+        return Call(matricize, b.arr(SHAPE), (1,), (2, 0))
     return Call(matricize, b.arr(SHAPE, k), [2, 0], [1])
 
 
@@ -85,12 +91,16 @@ def _(b, k):
     return Call(f, b.arr(SHAPE, k), b.arr((5, 4), k), 1)
 
 
-@entry("tenalg.multi_mode_dot", SEQ + ("modes", "skip", "transpose"), ALLDT, tenalg=True)
+@entry("tenalg.multi_mode_dot", SEQ + ("modes", "modes_tuple", "modes_vectors", "skip", "transpose"), ALLDT, tenalg=True)
 def _(b, k):
     f = tl().tenalg.multi_mode_dot
     kk = k.split("@")[0]
     if kk == "modes":
         return Call(f, b.arr(SHAPE), [b.arr((2, 2)), b.arr((5, 3))], modes=[2, 0])
+    if kk == "modes_tuple":
+        return Call(f, b.arr(SHAPE), (b.arr((2, 2)), b.arr((5, 3))), modes=(2, 0))
+    if kk == "modes_vectors":       # contracting vectors shifts the remaining modes: the modes list is consulted repeatedly
+        return Call(f, b.arr(SHAPE), [b.arr((3,)), b.arr((5, 4)), b.arr((2,))], modes=[0, 1, 2])
     if kk == "skip":
         return Call(f, b.arr(SHAPE), [b.arr((5, s)) for s in SHAPE], skip=1)
     if kk == "transpose":
@@ -162,11 +172,17 @@ def _(b, k):
     return Call(tl().tenalg.batched_outer, tuple(ts) if form_of(kk) == "tuple" else ts)
 
 
-@entry("tenalg.tensordot", ARR + ("batched",), ALLDT, tenalg=True)
+@entry("tenalg.tensordot", ARR + ("batched", "modes_lists", "batched_lists", "modes_int"), ALLDT, tenalg=True)
 def _(b, k):
     f = tl().tenalg.tensordot
     if k.split("@")[0] == "batched":
         return Call(f, b.arr((3, 4, 2)), b.arr((3, 4, 5)), modes=(1, 1), batched_modes=(0, 0))
+    if k.split("@")[0] == "modes_lists":
+        return Call(f, b.arr((3, 4, 2)), b.arr((2, 4, 5)), modes=[[2, 1], [0, 1]])
+    if k.split("@")[0] == "batched_lists":
+        return Call(f, b.arr((3, 4, 2)), b.arr((3, 4, 5)), modes=[[1], [1]], batched_modes=[[0], [0]])
+    if k.split("@")[0] == "modes_int":
+        return Call(f, b.arr((3, 4, 2)), b.arr((4, 2, 5)), modes=2)
     return Call(f, b.arr((3, 4, 2), k), b.arr((4, 2, 5), k), modes=([1, 2], [0, 1]))
 
 
